@@ -625,6 +625,9 @@ func WriteSiteNotFound(w http.ResponseWriter, r *http.Request) {
 func WriteTextResponse(w http.ResponseWriter, status int, body string) {
 	w.Header().Set("Content-Type", "text/plain; charset=utf-8")
 	w.Header().Set("X-Content-Type-Options", "nosniff")
+	// the text replaces the body a handler may have announced before it gave up
+	w.Header().Del("Content-Length")
+	w.Header().Del("Content-Encoding")
 	w.WriteHeader(status)
 	if _, err := w.Write([]byte(body)); err != nil {
 		log.Println("[Error] failed to write body: ", err)
